@@ -434,6 +434,44 @@ Section Colls.
       intros s [fc [-> H]]. apply (add_items_leaf fam sp inst fc coll1 F Hl SF s H).
   Qed.
 
+  (* the same on the collection the attribute already holds (it conforms): it is returned as
+     it is, or copied and normalised when there is an item preparer *)
+  Lemma coll_prepare_held fam sp inst fc F :
+    leaf_coll sp fam -> cstable F ->
+    T (fun h => IF F h /\ conf h (VRef fc) sp) (coll_prepare ct rec sp inst (VRef fc))
+      (fun r h => IF F h /\ (r = VRef fc \/ loose h r)) (IF F).
+  Proof.
+    intros Hl SF. pose proof Hl as (Hf & Sc & _ & _ & Hpi).
+    unfold coll_prepare. rewrite Hf.
+    eapply T_bind with (Q := fun c1 h => (IF F h /\ conf h (VRef fc) sp) /\ c1 = VRef fc).
+    { apply T_ret. auto. }
+    intros coll1. apply T_pull. intros ->.
+    eapply T_bind; [apply T_check|]. intros ok.
+    intros s [[IFh C] E]. unfold conf in C. rewrite C in E. subst ok. cbn [negb].
+    refine ((_ : T (fun h => IF F h /\ conf h (VRef fc) sp) _ (fun r h => IF F h /\ (r = VRef fc \/ loose h r)) (IF F)) s _);
+      [|split; [exact IFh|exact C]].
+    eapply T_bind with (Q := fun _ h => IF F h /\ conf h (VRef fc) sp).
+    { apply T_hpure; [apply hpure_truthy|]. intros h [H _]. exact H. }
+    intros t. destruct (a_prepare_item sp) as [f|]; [|apply T_ret; intros h [H _]; auto].
+    destruct t; [|apply T_ret; intros h [H _]; auto].
+    intros s0 [[I0 Fh0] C0]. unfold conf in C0.
+    destruct (check_flat_valid ct FUEL (heap s0) (a_ty sp) fc (scalar_coll_flat _ Sc) C0) as [o [No So]].
+    destruct (conf_norefs (heap s0) fc (a_ty sp) o Sc C0 No) as [Nr _].
+    cbn [loc_of]. rewrite bind_ret_l. unfold bind at 1. unfold read. rewrite No.
+    unfold bind at 1. unfold alloc.
+    set (s1 := mkst (heap s0 ++ [o]) (ncalls s0) (fail_at s0)).
+    assert (PI := prepare_items_leaf fam sp inst (length (heap s0)) F Hl SF s1).
+    assert (Pre : IF F (heap s1) /\ loose (heap s1) (VRef (length (heap s0))) /\
+                  conf (heap s1) (VRef (length (heap s0))) sp).
+    { simpl heap. destruct (IF_alloc ct Hflat F (heap s0) o (proj1 SF) So Nr (conj I0 Fh0)) as [H1 L1].
+      split; auto. split; auto. unfold conf.
+      rewrite <- (check_same_content ct FUEL (a_ty sp) (heap s0) (heap s0 ++ [o]) fc (length (heap s0)) o No); auto.
+      rewrite nth_error_app2 by lia. now rewrite Nat.sub_diag. }
+    specialize (PI Pre).
+    destruct (prepare_items ct rec fam sp inst (VRef (length (heap s0))) s1) as [[r|e] s2]; [|exact PI].
+    destruct PI as [H2 L2]. split; auto.
+  Qed.
+
   Lemma attr_mv_plain' sp fam v :
     leaf_coll sp fam ->
     mv_plain (mkmv VMissing v false
